@@ -8,8 +8,8 @@ PROP = {
         {
             "bin": "c13simple", "pkg": "gcrypto", "inject": [("c13simple", "gcrypto")],
             "tests": [
-                {"name": "TestVerifC13SimpleOps", "quick": 6000, "thorough": 900000, "shards": {"thorough": 6}},
-                {"name": "TestVerifC13SimpleFinalize", "quick": 6000, "thorough": 400000, "shards": {"thorough": 2}},
+                {"name": "TestVerifC13SimpleOps", "quick": 4000, "thorough": 600000, "shards": {"thorough": 6}},
+                {"name": "TestVerifC13SimpleFinalize", "quick": 4000, "thorough": 300000, "shards": {"thorough": 2}},
                 {"name": "FuzzVerifC13SimpleSparse", "mode": "fuzz", "thorough": 60},
                 {"name": "FuzzVerifC13SimpleFinalized", "mode": "fuzz", "thorough": 60},
             ],
@@ -17,8 +17,8 @@ PROP = {
         {
             "bin": "c13bls", "pkg": "gcrypto/gblsminsig", "inject": [("c13bls", "gcrypto/gblsminsig")],
             "tests": [
-                {"name": "TestVerifC13BLSOps", "quick": 600, "thorough": 40000, "shards": {"quick": 2, "thorough": 5}},
-                {"name": "TestVerifC13BLSFinalize", "quick": 800, "thorough": 30000, "shards": {"quick": 2, "thorough": 3}},
+                {"name": "TestVerifC13BLSOps", "quick": 600, "thorough": 30000, "shards": {"quick": 2, "thorough": 5}},
+                {"name": "TestVerifC13BLSFinalize", "quick": 800, "thorough": 21000, "shards": {"quick": 2, "thorough": 3}},
                 {"name": "FuzzVerifC13BLSSparse", "mode": "fuzz", "thorough": 60},
                 {"name": "FuzzVerifC13BLSFinalized", "mode": "fuzz", "thorough": 60},
             ],
